@@ -288,29 +288,31 @@ func jobC13(c *rt.Ctx) {
 						if two == 1 {
 							kinds[(ki+5)%len(kinds)].mut(&entries[(pos+1)%n])
 						}
-						all, valid, err, pv := implBatch(entries, vs, false, rt.NewRng(c.Seed, "c13b"))
-						c.Step(1)
 						c.Class("batch-entries")
 						c.Distinct(fmt.Sprintf("be %v %d %d %d %d", vs, n, pos, ki, two), true)
-						bad := pv != nil || err != nil || len(valid) != n
-						if !bad {
-							and := true
-							for i, v := range valid {
-								t := entries[i]
-								want := false
-								if len(t.key) == 32 && !(vs.v == ref.Ph && len(t.msg) != 64) {
-									want, _ = modelVerify(t, vs, false)
+						for _, zip := range []bool{false, true} {
+							all, valid, err, pv := implBatch(entries, vs, zip, rt.NewRng(c.Seed, "c13b"))
+							c.Step(1)
+							bad := pv != nil || err != nil || len(valid) != n
+							if !bad {
+								and := true
+								for i, v := range valid {
+									t := entries[i]
+									want := false
+									if len(t.key) == 32 && !(vs.v == ref.Ph && len(t.msg) != 64) {
+										want, _ = modelVerify(t, vs, zip)
+									}
+									if v != want {
+										bad = true
+									}
+									and = and && v
 								}
-								if v != want {
-									bad = true
-								}
-								and = and && v
+								bad = bad || all != and
 							}
-							bad = bad || all != and
-						}
-						if bad {
-							c.Violation(fmt.Sprintf("C13 batch malformed kind=%s", kd.name), fmt.Sprintf("VerifyBatch with malformed entry %s at %d of %d (%s): panic=%v err=%v valid=%v all=%v", kd.name, pos, n, vs, pv, err, valid, all),
-								map[string]interface{}{"kind": kd.name, "pos": pos, "n": n, "variant": vs.String(), "second_bad": two})
+							if bad {
+								c.Violation(fmt.Sprintf("C13 batch malformed kind=%s zip215=%v", kd.name, zip), fmt.Sprintf("VerifyBatch (zip215=%v) with malformed entry %s at %d of %d (%s): panic=%v err=%v valid=%v all=%v", zip, kd.name, pos, n, vs, pv, err, valid, all),
+									map[string]interface{}{"kind": kd.name, "pos": pos, "n": n, "variant": vs.String(), "second_bad": two, "zip215": zip})
+							}
 						}
 					}
 				}
